@@ -45,9 +45,9 @@ META = {
     },
     'C15': {
         'engine': 'E1 verus-extract',
-        'technique': 'Verus function contracts woven onto code extracted from /repo each run (System::advance_clock, Process::execute_op/advance_clock, block executors with decreases, ExecutionOptions::new)',
+        'technique': 'Verus function contracts woven onto code extracted from /repo each run (System::advance_clock, Process::execute_op/advance_clock, block executors with decreases, ExecutionOptions::new); bounded stand-in cycle_limit_sweep (limits n-3 .. n+3 around the exact cycle count of 50 programs, 20 non-terminating programs, options grid)',
         'design_ref': '§7 C15',
-        'level_text': 'Deductive proof for all inputs: advance_clock increments by exactly one and returns Ok iff the new clk <= max_cycles (Err carries CycleLimitExceeded(max)); execute_op = exactly one cycle; every block executor and the while.true loop verify with decreases max_cycles - clk (every program stops); ExecutionOptions::new refuses exactly the documented option sets.',
+        'level_text': 'Deductive proof for all inputs: advance_clock increments by exactly one and returns Ok iff the new clk <= max_cycles (Err carries CycleLimitExceeded(max)); execute_op = exactly one cycle; every block executor and the while.true loop verify with decreases max_cycles - clk (every program stops); ExecutionOptions::new refuses exactly the documented option sets. Bounded (225410 checks): success exactly when the limit is at least the cycle count for 50 programs of every control-flow shape; non-terminating programs (also inside call / syscall / dyn targets) stop with the limit error; ExecutionOptions::new on a 301 x 301 grid.',
         'level_note': 'Trusted: Felt model (winter-math), core::u32::next_power_of_two contract, Verus/Z3. Preconditions: max_cycles <= 2^29 - 1 (beyond it the trace cannot be allocated), expected_cycles <= 2^31. span/call/dyn executors: contract assumed inside unit executor until their own proofs land.',
     },
     'C08': {
@@ -59,9 +59,9 @@ META = {
     },
     'C05': {
         'engine': 'E1 verus-extract',
-        'technique': 'Verus contracts on the real stack primitives (whole-view postconditions) and on every op_* function against hub relations written from the docs; execute_op dispatcher proved against op_rel',
+        'technique': 'Verus contracts on the real stack primitives (whole-view postconditions) and on every op_* function against hub relations written from the docs; execute_op dispatcher proved against op_rel; E1 on the immediate-expansion functions of the assembler for every immediate (unit asm_field); bounded stand-ins instr_reference (reference semantics from the docs, 92056 cases) and immediate_forms (parser / parameter ranges)',
         'design_ref': '§7 C05',
-        'level_text': 'Deductive proof for all stack states (any depth >= 16, any operand values): L1 Stack::{shift_left,shift_right,copy_state,set,..} with zero-fill at depth 16, LIFO overflow, every deeper element unchanged; L2 every field/u32/stack-manipulation/system/ext2/push operation ensures next_view == sem_X(view) and fails exactly when fail_X(view); L3 the operation sequences the assembler emits for single instructions compute the documented instruction results.',
+        'level_text': 'Deductive proof for all stack states (any depth >= 16, any operand values): L1 Stack::{shift_left,shift_right,copy_state,set,..} with zero-fill at depth 16, LIFO overflow, every deeper element unchanged; L2 every field/u32/stack-manipulation/system/ext2/push operation ensures next_view == sem_X(view) and fails exactly when fail_X(view); L3 the operation sequences the assembler emits for single instructions compute the documented instruction results. The immediate forms of add / sub / mul / div / exp and the constant pushes are proved for EVERY immediate on the real assembler functions. Bounded: 92056 instruction cases against reference semantics written from the docs (complete final stack, failure kind, error code); ~170 sources for immediate / constant parsing and parameter ranges.',
         'level_note': 'Trusted: Felt model; bitwise chiplet contract (u32and/xor); host = arbitrary oracle. Unchecked u32 arithmetic ops are specified (as documented) for u32 operands only. L3: 180+ assembly instructions (field, u32, stack manipulation, ext2, push) are assembled by /repo\'s assembler and proved against the documented instruction semantics (units masm_instr*); memory/crypto/advice instructions and the text parser are not decided.',
     },
     'C06': {
@@ -115,9 +115,9 @@ META = {
     },
     'C09': {
         'engine': 'E2 mast-lemmas',
-        'technique': 'Verus lemmas over the MAST /repo\'s assembler emits, with the advice stack universally quantified (adv[k] is whatever the host pushed); hub bit-mask lemmas (generated bit-vector cases) and the pow2 macro step; Verus contracts on op_advpop/op_advpopw; bounded dishonest-host stand-in for the Merkle instructions',
+        'technique': 'Verus lemmas over the MAST /repo\'s assembler emits, with the advice stack universally quantified (adv[k] is whatever the host pushed); hub bit-mask lemmas (generated bit-vector cases) and the pow2 macro step; Verus contracts on op_advpop/op_advpopw; bounded dishonest-host stand-in for the Merkle instructions; bounded stand-in dishonest_host_full (attacker-controlled hints and Merkle paths, ~250000 runs)',
         'design_ref': '§7 C09, §11',
-        'level_text': 'Deductive proof for EVERY advice content a host may supply: u32clz, u32clo, u32ctz, u32cto and ilog2 complete exactly when the hint is the true count / logarithm (and return it), ext2inv completes exactly when the hinted pair is the inverse, stdlib u64 div/mod/divmod either fail or produce the true quotient/remainder; advice pops push exactly the host-returned value. Honest-host completeness follows from the same equivalences (ok <==> hint correct).',
+        'level_text': 'Deductive proof for EVERY advice content a host may supply: u32clz, u32clo, u32ctz, u32cto and ilog2 complete exactly when the hint is the true count / logarithm (and return it), ext2inv completes exactly when the hinted pair is the inverse, stdlib u64 div/mod/divmod either fail or produce the true quotient/remainder; advice pops push exactly the host-returned value. Honest-host completeness follows from the same equivalences (ok <==> hint correct). Bounded (~250000 runs with a dishonest host incl. Merkle paths / indices / depths for mtree_get / mtree_set / mtree_verify): no completed run leaves a wrong result.',
         'level_note': 'Merkle instructions (mtree_get / mtree_set / mtree_verify) are covered by the bounded dishonest-host stand-in only (the hasher chiplet and the Merkle store are not modelled). ext2div and the u64 clz/ctz/clo/cto procedures have no lemma. Two genuine defects in this area were found and repaired: F21 ilog2 accepted wrong hints, F22 op_mpverify ignored the depth.',
     },
 }
